@@ -118,6 +118,7 @@ def irwf(prop, case, agg, units=None):
 
     units = case["units"] if units is None else units
     src = case["src"] if "src" in case else lang.render(case_prog(case, units), case.get("mode", "min"))
+    bare = set()      # functions whose SOURCE has a value-less return although they have a result (the front end lets that through)
     for opt in (False, True):
         res = compile_src(src, {"optimize": opt})
         if not res.ok:
@@ -128,6 +129,11 @@ def irwf(prop, case, agg, units=None):
                 return
             agg.stats["not-compiled:" + res.status] += 1
             continue
+        if not opt:
+            from nsl import LinearIR as _L
+            for f in res.module.Functions.values():
+                if not f.Type.ReturnType.IsVoid() and any(isinstance(i, _L.ReturnInstruction) and i.Value is None for i in f.Instructions):
+                    bare.add(f.Name)
         try:
             program = link(res.module)
         except BaseException:
@@ -143,6 +149,9 @@ def irwf(prop, case, agg, units=None):
         for c in unknown:
             agg.stats["unknown-instruction-class:" + c] += 1
         for p in probs:
+            if p["kind"] == "missing-operand" and p["where"] == "ReturnInstruction.value" and p.get("function") in bare:
+                agg.stats["bare-return-in-source"] += 1
+                continue
             agg.fail({"key": f"{prop}|{case['fam']}|{p['kind']}|{p['where']}|opt={int(opt)}", "source": src,
                       "options": {"optimize": opt}, "expected": "well-formed IR", "observed": p["detail"]})
     if len(agg.samples) < 2:
